@@ -43,3 +43,6 @@ model/Decap.vos model/Decap.vok model/Decap.required_vos: model/Decap.v gen/Cons
 model/Utils.vo model/Utils.glob model/Utils.v.beautified model/Utils.required_vo: model/Utils.v gen/Consts.vo model/Base.vo model/Types.vo model/Header.vo
 model/Utils.vio: model/Utils.v gen/Consts.vio model/Base.vio model/Types.vio model/Header.vio
 model/Utils.vos model/Utils.vok model/Utils.required_vos: model/Utils.v gen/Consts.vos model/Base.vos model/Types.vos model/Header.vos
+extract/Extract.vo extract/Extract.glob extract/Extract.v.beautified extract/Extract.required_vo: extract/Extract.v model/Base.vo model/Types.vo model/Header.vo model/Crc.vo model/Ext.vo model/Encap.vo model/Memory.vo model/Decap.vo model/Utils.vo
+extract/Extract.vio: extract/Extract.v model/Base.vio model/Types.vio model/Header.vio model/Crc.vio model/Ext.vio model/Encap.vio model/Memory.vio model/Decap.vio model/Utils.vio
+extract/Extract.vos extract/Extract.vok extract/Extract.required_vos: extract/Extract.v model/Base.vos model/Types.vos model/Header.vos model/Crc.vos model/Ext.vos model/Encap.vos model/Memory.vos model/Decap.vos model/Utils.vos
